@@ -477,7 +477,12 @@ pub fn configs(reduced: bool) -> Vec<Cfg> {
     v
 }
 
-const SENTINEL: &[u8] = b"SENTINEL \xff\x00 do not touch\n";
+const SENTINEL_LINE: &[u8] = b"SENTINEL \xff\x00 do not touch\n";
+/// Longer than any document the programs emit: a write that does not truncate the target
+/// leaves the tail of the sentinel behind.
+fn sentinel() -> Vec<u8> {
+    SENTINEL_LINE.repeat(2000)
+}
 const VALID_BASE: &str = "openapi: 3.0.3\ninfo:\n  title: Base\n  description: from the base\n  version: 9.9.9\n  license:\n    name: MIT\nservers:\n- url: https://base.example.com\npaths:\n  /base-only:\n    get:\n      responses:\n        '200':\n          description: ok\ncomponents:\n  securitySchemes:\n    default:\n      type: http\n      scheme: bearer\nx-base: true\n";
 const NOT_YAML: &str = "{ this is: [not yaml\n";
 const NOT_OPENAPI: &str = "- just\n- a list\n";
@@ -632,7 +637,7 @@ fn check_cli_case(dir: &TempDir, p: &Program, cfg: Cfg) -> Result<(&'static str,
     let d = &dir.0;
     let target = d.join("out.yaml");
     if cfg.sentinel {
-        std::fs::write(&target, SENTINEL).expect("write sentinel");
+        std::fs::write(&target, sentinel()).expect("write sentinel");
     }
     let base_name = match cfg.base {
         0 => None,
@@ -739,7 +744,7 @@ fn check_cli_case(dir: &TempDir, p: &Program, cfg: Cfg) -> Result<(&'static str,
         // the target is what it was
         let untouched = match (&after, cfg.sentinel) {
             (None, false) => true,
-            (Some(b), true) => b.as_slice() == SENTINEL,
+            (Some(b), true) => b.as_slice() == sentinel().as_slice(),
             _ => false,
         };
         if !untouched {
